@@ -98,10 +98,10 @@ theorem initStateT_fst (s : St) (now : Nat) :
       cases hh : highestIndex s.dir <;>
       simp [hn, ha, hh, openFile_eq, openFileT_eq, cleanup_eq, cleanupT_eq, hit_noFaults_rename]
 
-theorem mountNextT_fst (s : St) (a : Active) (r : RotCfg) (force : Bool) (now : Nat) :
-    mountNext s a r force now noFaults =
-      ((mountNextT s a r force now).1, (mountNextT s a r force now).2.1, false) := by
-  unfold mountNext mountNextT
+theorem mountNextCoreT_fst (s : St) (a : Active) (r : RotCfg) (force : Bool) (now : Nat) :
+    mountNextCore s a r force now noFaults =
+      ((mountNextCoreT s a r force now).1, (mountNextCoreT s a r force now).2.1, false) := by
+  unfold mountNextCore mountNextCoreT
   by_cases h : (force || rotationNecessary r a now) = true
   · cases hn : r.naming <;>
       cases hrn : (s.dir.rename ⟨some .cur, false⟩ ⟨some (.num a.idx), false⟩).2 <;>
@@ -109,6 +109,21 @@ theorem mountNextT_fst (s : St) (a : Active) (r : RotCfg) (force : Bool) (now : 
       simp [h, hn, hrn, hh, openFile_eq, openFileT_eq, cleanup_eq, cleanupT_eq, hit_noFaults_rename,
         flushAct]
   · simp [h]
+
+theorem mountNextT_fst (s : St) (a : Active) (r : RotCfg) (force : Bool) (now : Nat) :
+    mountNext s a r force now noFaults =
+      ((mountNextT s a r force now).1, (mountNextT s a r force now).2.1, false) := by
+  unfold mountNext mountNextT
+  by_cases h : (force || rotationNecessary r a now) = true
+  · simp [h, mountNextCoreT_fst]
+  · simp [h]
+
+/-- when a rotation is due, the instrumented `mountNext` flushes (no point) and then runs the
+    instrumented rotation proper -/
+theorem mountNextT_due (s : St) (a : Active) (r : RotCfg) (force : Bool) (now : Nat)
+    (h : (force || rotationNecessary r a now) = true) :
+    mountNextT s a r force now = mountNextCoreT (flushAct s a).1 (flushAct s a).2 r true now := by
+  simp [mountNextT, h]
 
 theorem writeBufferT_fst (s : St) (b : List Nat) (now : Nat) :
     (writeBuffer s b now noFaults).1 = (writeBufferT s b now).1 := by
@@ -516,12 +531,12 @@ theorem openPts_dirs (s : St) (n : FName) (now : Nat) :
     · left; rfl
     · right; rfl
 
-theorem mountNextT_numbers_pts (s : St) (act : Active) (r : RotCfg) (force : Bool) (now : Nat)
+theorem mountNextCoreT_numbers_pts (s : St) (act : Active) (r : RotCfg) (force : Bool) (now : Nat)
     (hn : r.naming = .numbers) (hcl : r.cleanup = none)
     (h : (force || rotationNecessary r act now) = true)
     (d1 : Dir) (hren : s.dir.rename curN ⟨some (.num act.idx), false⟩ = (d1, true))
     (hh : act.handle = curN) :
-    (mountNextT s act r force now).2.2 =
+    (mountNextCoreT s act r force now).2.2 =
       [pt "rename.before" s, pt "rename.after" { s with dir := d1 },
         pt "rot.infix_chosen" { s with dir := d1 }] ++
       openPts { s with dir := d1 } curN now ++
@@ -529,15 +544,15 @@ theorem mountNextT_numbers_pts (s : St) (act : Active) (r : RotCfg) (force : Boo
         pt "rot.mounted" { openS { s with dir := d1 } curN now with
           dir := (openS { s with dir := d1 } curN now).dir.append
             ⟨some (.num act.idx), false⟩ act.pending }] := by
-  simp [mountNextT, h, hn, hren, hh, openFileT_eq, flushAct, cleanupT, hcl]
+  simp [mountNextCoreT, h, hn, hren, hh, openFileT_eq, flushAct, cleanupT, hcl]
 
-theorem mountNextT_timestamps_pts (s : St) (act : Active) (r : RotCfg) (force : Bool) (now : Nat)
+theorem mountNextCoreT_timestamps_pts (s : St) (act : Active) (r : RotCfg) (force : Bool) (now : Nat)
     (hn : r.naming = .timestamps) (hcl : r.cleanup = none)
     (h : (force || rotationNecessary r act now) = true)
     (d1 : Dir)
     (hren : s.dir.rename curN ⟨some (collisionFree s.dir act.stamp), false⟩ = (d1, true))
     (hh : act.handle = curN) :
-    (mountNextT s act r force now).2.2 =
+    (mountNextCoreT s act r force now).2.2 =
       [pt "rename.before" s, pt "rename.after" { s with dir := d1 },
         pt "rot.infix_chosen" { s with dir := d1 }] ++
       openPts { s with dir := d1 } curN now ++
@@ -545,7 +560,7 @@ theorem mountNextT_timestamps_pts (s : St) (act : Active) (r : RotCfg) (force : 
         pt "rot.mounted" { openS { s with dir := d1 } curN now with
           dir := (openS { s with dir := d1 } curN now).dir.append
             ⟨some (collisionFree s.dir act.stamp), false⟩ act.pending }] := by
-  simp [mountNextT, h, hn, hren, hh, openFileT_eq, flushAct, cleanupT, hcl]
+  simp [mountNextCoreT, h, hn, hren, hh, openFileT_eq, flushAct, cleanupT, hcl]
 
 theorem mount_pts_dirs (s : St) (d1 : Dir) (tn : FName) (pend : List Nat) (now : Nat)
     (hg1 : d1.get curN = none) :
@@ -573,46 +588,46 @@ theorem mount_pts_dirs (s : St) (d1 : Dir) (tn : FName) (pend : List Nat) (now :
     show (openS { s with dir := d1 } curN now).dir.append tn pend = _
     rw [ho]
 
-theorem mountNextT_dirs (s : St) (act : Active) (r : RotCfg) (force : Bool) (now : Nat)
+theorem mountNextCoreT_dirs (s : St) (act : Active) (r : RotCfg) (force : Bool) (now : Nat)
     (hcl : r.cleanup = none) (hnm : r.naming = .numbers ∨ r.naming = .timestamps)
     (h : (force || rotationNecessary r act now) = true) (d1 : Dir)
     (hren : s.dir.rename curN ⟨some (targetOf r s.dir act), false⟩ = (d1, true))
     (hh : act.handle = curN) (hg1 : d1.get curN = none) :
-    (∀ p ∈ (mountNextT s act r force now).2.2,
+    (∀ p ∈ (mountNextCoreT s act r force now).2.2,
       p.dir = s.dir ∨ p.dir = d1 ∨ p.dir = d1.set curN ⟨[], now⟩ ∨
         p.dir = (d1.set curN ⟨[], now⟩).append ⟨some (targetOf r s.dir act), false⟩ act.pending) ∧
-    (mountNextT s act r force now).1.dir =
+    (mountNextCoreT s act r force now).1.dir =
       (d1.set curN ⟨[], now⟩).append ⟨some (targetOf r s.dir act), false⟩ act.pending := by
-  have hfst := mountNextT_fst s act r force now
+  have hfst := mountNextCoreT_fst s act r force now
   rcases hnm with hn | hn
   · have ht : targetOf r s.dir act = .num act.idx := by simp [targetOf, hn]
     rw [ht] at hren ⊢
-    obtain ⟨s', he, -, hd'⟩ := mountNext_numbers s act r force now hn hcl h d1 hren hh hg1
+    obtain ⟨s', he, -, hd'⟩ := mountNextCore_numbers s act r force now hn hcl h d1 hren hh hg1
     rw [he] at hfst
     refine ⟨?_, ?_⟩
-    · rw [mountNextT_numbers_pts s act r force now hn hcl h d1 hren hh]
+    · rw [mountNextCoreT_numbers_pts s act r force now hn hcl h d1 hren hh]
       exact mount_pts_dirs s d1 _ _ now hg1
-    · have : s' = (mountNextT s act r force now).1 := by injection hfst
+    · have : s' = (mountNextCoreT s act r force now).1 := by injection hfst
       rw [← this, hd']
   · have ht : targetOf r s.dir act = collisionFree s.dir act.stamp := by simp [targetOf, hn]
     rw [ht] at hren ⊢
-    obtain ⟨s', he, -, hd'⟩ := mountNext_timestamps s act r force now hn hcl h d1 hren hh hg1
+    obtain ⟨s', he, -, hd'⟩ := mountNextCore_timestamps s act r force now hn hcl h d1 hren hh hg1
     rw [he] at hfst
     refine ⟨?_, ?_⟩
-    · rw [mountNextT_timestamps_pts s act r force now hn hcl h d1 hren hh]
+    · rw [mountNextCoreT_timestamps_pts s act r force now hn hcl h d1 hren hh]
       exact mount_pts_dirs s d1 _ _ now hg1
-    · have : s' = (mountNextT s act r force now).1 := by injection hfst
+    · have : s' = (mountNextCoreT s act r force now).1 := by injection hfst
       rw [← this, hd']
 
-/-- every point of a rotation (direct mode): the directory is a crash directory with exactly
-    the stream before the rotation -/
-theorem mountNextT_points (s : St) (act : Active) (a : Abs) (r : RotCfg) (force : Bool) (now : Nat)
+/-- every point of the rotation proper (direct mode): the directory is a crash directory with
+    exactly the stream before the rotation -/
+theorem mountNextCoreT_points (s : St) (act : Active) (a : Abs) (r : RotCfg) (force : Bool) (now : Nat)
     (hr : s.cfg.rot = some r) (hcl : r.cleanup = none)
     (hnm : r.naming = .numbers ∨ r.naming = .timestamps)
     (hi : InvAct s.cfg s.dir act a) (he : Ext s.cfg s.dir act) (hp : act.pending = [])
     (hcap : s.cfg.cap = none) (hst : act.stamp ≤ now)
     (h : (force || rotationNecessary r act now) = true) :
-    ∀ p ∈ (mountNextT s act r force now).2.2,
+    ∀ p ∈ (mountNextCoreT s act r force now).2.2,
       CrashDir s.cfg.rot now p.dir ∧ readAll p.dir = flat a := by
   obtain ⟨f, hf, hdata⟩ := hi.file
   have hcn := cnOf_some hr
@@ -622,11 +637,11 @@ theorem mountNextT_points (s : St) (act : Active) (a : Abs) (r : RotCfg) (force 
   obtain ⟨htr, hfresh, hkey, hb⟩ := target_facts hr hnm hi
   obtain ⟨d1, hren, hg1, hg2, hasc, hmem, -, -, -⟩ :=
     rotate_dir0 s.dir f (targetOf r s.dir act) now hf htr hfresh hkey
-  obtain ⟨hdirs, hfin⟩ := mountNextT_dirs s act r force now hcl hnm h d1 hren hh hg1
+  obtain ⟨hdirs, hfin⟩ := mountNextCoreT_dirs s act r force now hcl hnm h d1 hren hh hg1
   obtain ⟨s', act', hm, hc', hi', he', hst', -⟩ :=
-    mountNext_rot2 s act a r force now hr hcl hnm hi hst h
-  have hs' : s' = (mountNextT s act r force now).1 := by
-    have := mountNextT_fst s act r force now
+    mountNextCore_rot2 s act a r force now hr hcl hnm hi hst h
+  have hs' : s' = (mountNextCoreT s act r force now).1 := by
+    have := mountNextCoreT_fst s act r force now
     rw [hm] at this
     injection this
   obtain ⟨hb1, hb2⟩ := hb (act.idx + 1) now (fun _ => Nat.lt_succ_self _) (fun _ => hst)
@@ -678,6 +693,27 @@ theorem mountNextT_points (s : St) (act : Active) (a : Abs) (r : RotCfg) (force 
   · rw [h1]; exact D1
   · rw [h1]; exact D2
   · rw [h1, ← hfin, ← hs']; exact D3
+
+/-- the (empty) flush keeps the birth-time bookkeeping -/
+theorem Ext.flush {cfg : Cfg} {d : Dir} {act : Active} {a : Abs} (he : Ext cfg d act)
+    (hi : InvAct cfg d act a) :
+    Ext cfg (d.append act.handle act.pending) { act with pending := [] } := by
+  obtain ⟨f, hf, -⟩ := hi.file
+  exact he.same (same_append _ _ _) ⟨f, hf⟩ rfl rfl
+
+/-- every point of a rotation (direct mode): the directory is a crash directory with exactly
+    the stream before the rotation -/
+theorem mountNextT_points (s : St) (act : Active) (a : Abs) (r : RotCfg) (force : Bool) (now : Nat)
+    (hr : s.cfg.rot = some r) (hcl : r.cleanup = none)
+    (hnm : r.naming = .numbers ∨ r.naming = .timestamps)
+    (hi : InvAct s.cfg s.dir act a) (he : Ext s.cfg s.dir act) (_hp : act.pending = [])
+    (hcap : s.cfg.cap = none) (hst : act.stamp ≤ now)
+    (h : (force || rotationNecessary r act now) = true) :
+    ∀ p ∈ (mountNextT s act r force now).2.2,
+      CrashDir s.cfg.rot now p.dir ∧ readAll p.dir = flat a := by
+  rw [mountNextT_due s act r force now h]
+  exact mountNextCoreT_points (flushAct s act).1 (flushAct s act).2 a r true now hr hcl hnm
+    hi.flush (he.flush hi) rfl hcap hst rfl
 
 /-- the points of a write on a mounted writer -/
 theorem writeBufferT_mounted (s : St) (act : Active) (b : List Nat) (now : Nat)
